@@ -48,6 +48,8 @@ func init() {
 			{ID: "C03-R16", Title: "fixed-size tables on the unprotected surface are indexed within their length", Floor: 1, Run: tableIndexBounded},
 			{ID: "C03-R17", Title: "recover() is called by the deferred function itself", Floor: 3, Run: recoverIsDirectlyDeferred},
 			{ID: "C03-R18", Title: "a deferred Unlock finds its mutex locked on every path (unlock of an unlocked mutex is fatal)", Floor: 5, Run: deferredUnlockFindsLockHeld},
+			{ID: "C03-R19", Title: "results of reflect.Value.Interface() are not asserted blindly", Floor: 1, Run: reflectedValuesNotAssertedBlindly},
+			{ID: "C03-R20", Title: "reflect.TypeOf of a handed-in value is guarded against nil", Floor: 1, Run: typeOfGuardedAgainstNil},
 		},
 	})
 }
